@@ -28,6 +28,8 @@ one() {
     [ -f "$t" ] || continue
     p=$(grep -m1 '^package ' $t | awk '{print $2}' | sed 's/_test$//')
     case "$p" in fs) pkg=db/fs;; mem) pkg=db/mem;; postgres) pkg=db/postgres;; db) pkg=db;; main) pkg=dev/disasm;; *) pkg=$p;; esac
+    dp=$(python3 -c "import json; print(json.load(open('$d/meta.json')).get('demo_pkg',''))")
+    [ -n "$dp" ] && pkg=$dp
     [ -d $wt/$pkg ] || continue
     cp $t $wt/$pkg/zz_seed_$(basename $t)
   done
